@@ -3,9 +3,11 @@ package props
 import (
 	"bytes"
 	"fmt"
+	"io"
 	"regexp"
 	"sort"
 	"strings"
+	"testing/iotest"
 	"time"
 	"unicode"
 
@@ -425,7 +427,7 @@ func stlGenRow(r *fw.Rand, dsc string, enumerate []byte) (tf []byte, runs []stlR
 }
 
 func stlGenGSI(r *fw.Rand) stlGSI {
-	g := stlGSI{FPS: fw.Pick(r, []int{25, 30}), DSC: fw.Pick(r, []string{"0", "1", "2"}), RN: r.Intn(100), MNC: r.Range(1, 99), MNR: r.Range(1, 99)}
+	g := stlGSI{FPS: fw.Pick(r, []int{25, 30}), DSC: fw.Pick(r, []string{"0", "1", "2"}), RN: r.Intn(100), MNC: r.Range(1, 99), MNR: fw.Pick(r, []int{23, 23, 11, r.Range(1, 99), r.Range(1, 99), r.Range(1, 99)})}
 	g.LC = fw.Pick(r, []string{"75", "09", "0F", "69", "1E", "0A", "  "})
 	g.Lang = stlLangCodes[g.LC]
 	str := func() string {
@@ -622,6 +624,28 @@ func stlEnumeration() [][]byte {
 	return out
 }
 
+// c05BlockReader hands out one GSI or TTI block per read
+type c05BlockReader struct {
+	b   []byte
+	off int
+}
+
+func (r *c05BlockReader) Read(p []byte) (int, error) {
+	if r.off >= len(r.b) {
+		return 0, io.EOF
+	}
+	n := 128
+	if r.off == 0 {
+		n = 1024
+	}
+	if n > len(p) {
+		n = len(p)
+	}
+	n = copy(p[:n], r.b[r.off:])
+	r.off += n
+	return n, nil
+}
+
 func c05Reader(c *fw.Ctx, enumerate [][]byte) fw.Outcome {
 	model := stlGenModel(c.R, enumerate)
 	doc := stlEncodeDoc(model, c.R)
@@ -629,8 +653,14 @@ func c05Reader(c *fw.Ctx, enumerate [][]byte) fw.Outcome {
 	for _, ignore := range []bool{false, true} {
 		var got *astisub.Subtitles
 		var err error
+		// the file arrives the way os.File delivers it, or (second pass of every other case) block by block with
+		// the last block handed over together with io.EOF
+		var src io.Reader = bytes.NewReader(doc)
+		if ignore && c.Idx%2 == 1 {
+			src = iotest.DataErrReader(&c05BlockReader{b: doc})
+		}
 		if p := guard(func() {
-			got, err = astisub.ReadFromSTL(bytes.NewReader(doc), astisub.STLOptions{IgnoreTimecodeStartOfProgramme: ignore})
+			got, err = astisub.ReadFromSTL(src, astisub.STLOptions{IgnoreTimecodeStartOfProgramme: ignore})
 		}); p != "" {
 			return fw.Bad(key, fmt.Sprintf("%x", doc), "reader panicked (ignoreTCP=%v): %s", ignore, p)
 		}
@@ -642,6 +672,27 @@ func c05Reader(c *fw.Ctx, enumerate [][]byte) fw.Outcome {
 		}
 		if exp, have := stlExpectCues(model, ignore), stlProjectCues(got); !stlSameWithin1ns(exp, have) {
 			return fw.Bad(key, fmt.Sprintf("%x", doc), "STL reader (fps=%d dsc=%s ignoreTCP=%v tcp=%v): %s", model.G.FPS, model.G.DSC, ignore, model.G.TCP, firstDiff(exp, have))
+		}
+		// the vertical position is also handed on as a line percentage for the other formats: whatever the mapping,
+		// a row inside the displayable rows is a percentage between 0 and 100, and a lower row never gets a smaller one
+		type pos struct{ vp, line int }
+		var seen []pos
+		for k, it := range got.Items {
+			sa := it.InlineStyle
+			if sa == nil || sa.STLPosition == nil || sa.STLPosition.MaxRows <= 0 || sa.STLPosition.VerticalPosition > sa.STLPosition.MaxRows || sa.WebVTTLine == "" {
+				continue
+			}
+			var pc int
+			if n, _ := fmt.Sscanf(sa.WebVTTLine, "%d%%", &pc); n != 1 || pc < 0 || pc > 100 {
+				return fw.Bad(key, fmt.Sprintf("%x", doc), "STL reader: cue %d stands on row %d of %d, handed on as line %q: not a percentage between 0 and 100", k, sa.STLPosition.VerticalPosition, sa.STLPosition.MaxRows, sa.WebVTTLine)
+			}
+			for _, o := range seen {
+				if (o.vp < sa.STLPosition.VerticalPosition && o.line > pc) || (o.vp > sa.STLPosition.VerticalPosition && o.line < pc) {
+					return fw.Bad(key, fmt.Sprintf("%x", doc), "STL reader: row %d of %d is handed on as line %d%% but row %d as line %d%%: the order of rows is not kept", o.vp, sa.STLPosition.MaxRows, o.line, sa.STLPosition.VerticalPosition, pc)
+				}
+			}
+			seen = append(seen, pos{sa.STLPosition.VerticalPosition, pc})
+			c.Count("vertical_positions_checked", 1)
 		}
 	}
 	c.Feature(fmt.Sprintf("read fps=%d dsc=%s tcp=%v userdata=%v enum=%v", model.G.FPS, model.G.DSC, model.G.TCP != [4]int{}, len(model.order) > len(model.Cues), enumerate != nil))
